@@ -8,16 +8,6 @@ import PrologVerif.Spec.DcgSLD
 namespace PrologVerif.Grammar
 open PrologVerif
 
-mutual
-  def groundT : Term → Bool
-    | .var _ => false
-    | .app _ as => groundA as
-    | _ => true
-  def groundA : Args → Bool
-    | .nil => true
-    | .cons t ts => groundT t && groundA ts
-end
-
 def isVar : Term → Bool
   | .var _ => true
   | _ => false
@@ -63,6 +53,17 @@ theorem All2.forall_right {α β : Type} {R : α → β → Prop} {as : List α}
     rcases List.mem_cons.1 hb with rfl | hb
     · exact hp _ _ r
     · exact ih b hb
+
+theorem All2.zip {α β : Type} {R : α → β → Prop} {as : List α} {bs : List β} (h : All2 R as bs) :
+    ∀ p ∈ as.zip bs, R p.1 p.2 := by
+  induction h with
+  | nil => intro p hp; simp at hp
+  | cons r _ ih =>
+    intro p hp
+    simp only [List.zip_cons_cons, List.mem_cons] at hp
+    rcases hp with rfl | hp
+    · exact r
+    · exact ih p hp
 
 /-! ### walk -/
 
@@ -271,5 +272,96 @@ theorem consume_ground (uf : Nat) (st : St) : ∀ (ts l : List Term),
     by_cases hht : h = t
     · simp [hht, stripPrefix, hrec]
     · simp [hht, stripPrefix]
+
+/-! ### `Denotes`: an input that is a ground list under the substitution -/
+
+theorem Denotes.ext {σ : Subst} {t : Term} {l : List Term} (h : Denotes σ t l) (Δ : Subst) :
+    Denotes (Δ ++ σ) t l := by
+  induction h with
+  | nil hw => exact .nil (by rw [walk_append, hw]; exact walk_nonvar _ _ rfl)
+  | cons hw hg _ ih => exact .cons (by rw [walk_append, hw]; exact walk_nonvar _ _ rfl) hg ih
+
+theorem Denotes.cons_bind {σ : Subst} {t : Term} {l : List Term} (h : Denotes σ t l) (p : Nat × Term) :
+    Denotes (p :: σ) t l := h.ext [p]
+
+theorem Denotes.of_list (σ : Subst) : ∀ (l : List Term), (∀ t ∈ l, groundT t = true) →
+    Denotes σ (Term.list l Term.nilT) l
+  | [], _ => .nil (walk_nonvar _ _ rfl)
+  | h :: l, hl =>
+    .cons (walk_nonvar _ _ rfl) (hl h (by simp)) (Denotes.of_list σ l (fun t ht => hl t (by simp [ht])))
+
+theorem Denotes.ground {σ : Subst} {t : Term} {l : List Term} (h : Denotes σ t l) :
+    ∀ x ∈ l, groundT x = true := by
+  induction h with
+  | nil _ => intro x hx; simp at hx
+  | cons _ hg _ ih =>
+    intro x hx
+    rcases List.mem_cons.1 hx with rfl | hx
+    · exact hg
+    · exact ih x hx
+
+theorem Denotes.walk_nonvar {σ : Subst} {t : Term} {l : List Term} (h : Denotes σ t l) :
+    isVar (walk σ t) = false := by
+  cases h with
+  | nil hw => rw [hw]; rfl
+  | cons hw _ _ => rw [hw]; rfl
+
+/-- the dereferenced term denotes the same list -/
+theorem Denotes.walked {σ : Subst} {t : Term} {l : List Term} (h : Denotes σ t l) :
+    Denotes σ (walk σ t) l := by
+  have hn := h.walk_nonvar
+  cases h with
+  | nil hw => exact .nil (by rw [PrologVerif.Grammar.walk_nonvar σ _ hn, hw])
+  | cons hw hg ht => exact .cons (by rw [PrologVerif.Grammar.walk_nonvar σ _ hn, hw]) hg ht
+
+/-- a variable bound to a term that denotes `l` denotes `l` -/
+theorem Denotes.of_bind {σ : Subst} {u : Term} {l : List Term} (v : Nat) (h : Denotes σ u l)
+    (hu : isVar u = false) (hv : ∀ p ∈ σ, p.1 ≠ v) : Denotes ((v, u) :: σ) (.var v) l := by
+  have hw : walk ((v, u) :: σ) (.var v) = u := walk_bind σ v u hv
+  have h' : Denotes ((v, u) :: σ) u l := h.cons_bind _
+  have hwu : walk ((v, u) :: σ) u = u := PrologVerif.Grammar.walk_nonvar _ _ hu
+  cases h' with
+  | nil hw' => exact .nil (by rw [hw, ← hwu, hw'])
+  | cons hw' hg ht => exact .cons (by rw [hw, ← hwu, hw']) hg ht
+
+/-- **`S0 = [t1,…,tn | S]`** when `S0` denotes the ground list `l`, the terminals are ground and `S`
+    is an unbound variable: fails iff the terminals are not a prefix of `l`; otherwise binds `S`
+    (and nothing else) to a non-variable term that denotes what is left -/
+theorem unify_terminals_den (s : Nat) : ∀ (ts : List Term) (k : Nat) (σ : Subst) (x : Term) (l : List Term),
+    Denotes σ x l → (∀ t ∈ ts, groundT t = true) → (∀ p ∈ σ, p.1 ≠ s) →
+    (Term.list ts Term.nilT).size ≤ k →
+    (stripPrefix ts l = none → unify k σ x (Term.list ts (.var s)) = .done none) ∧
+    (∀ l', stripPrefix ts l = some l' → ∃ t', unify k σ x (Term.list ts (.var s)) = .done (some ((s, t') :: σ)) ∧
+        isVar t' = false ∧ Denotes σ t' l')
+  | [], k, σ, x, l, hx, _, hs, hk => by
+    have : k = (k - 1) + 1 := by simp [Term.list, Term.nilT, Term.size] at hk; omega
+    rw [this]
+    simp only [Term.list, List.foldr_nil, stripPrefix]
+    refine ⟨fun h => by simp at h, fun l' hl' => ?_⟩
+    simp only [Option.some.injEq] at hl'
+    subst hl'
+    exact ⟨walk σ x, unify_nonvar_var (k - 1) σ x _ s rfl hx.walk_nonvar hs, hx.walk_nonvar, hx.walked⟩
+  | t :: ts, 0, σ, x, l, _, _, _, hk => by
+    rw [size_list_cons] at hk; omega
+  | t :: ts, k + 1, σ, x, l, hx, hts, hs, hk => by
+    rw [size_list_cons] at hk
+    unfold unify
+    rw [walk_nonvar σ (Term.list (t :: ts) (.var s)) rfl]
+    cases hx with
+    | nil hw =>
+      rw [hw]
+      simp [Term.list, Term.nilT, stripPrefix, Term.consT]
+    | @cons _ h tl l hw hg htl =>
+      rw [hw]
+      have hg' := unify_ground k σ h t hg (hts t (by simp)) (by omega)
+      have hrec := unify_terminals_den s ts k σ tl l htl (fun t ht => hts t (by simp [ht])) hs (by omega)
+      simp only [list_cons, Term.consT, unifyArgsWith, hg', if_true]
+      by_cases hht : h = t
+      · simp only [hht, if_true, stripPrefix]
+        refine ⟨fun hn => ?_, fun l' hl' => ?_⟩
+        · rw [hrec.1 hn]
+        · obtain ⟨t', e1, e2, e3⟩ := hrec.2 l' hl'
+          exact ⟨t', by rw [e1], e2, e3⟩
+      · simp [hht, stripPrefix]
 
 end PrologVerif.Grammar
